@@ -33,6 +33,7 @@ type World struct {
 	concYield func()
 	dead      bool // a hang happened: the process state is no longer trustworthy
 	opTimeo   time.Duration
+	cevicts   int64 // number of `cevict` calls so far: seeds the package's random descent so that its choices can be told to the model
 }
 
 // reseed makes the package's own use of the global math/rand source (the random descent of
@@ -1024,6 +1025,81 @@ func (w *World) exec(t []string) string {
 			return w.copyOnto(atoi(f[1]), atoi(f[2]))
 		}
 		return w.appendCheck(atoi(t[1]))
+	case "cstate", "cstatein":
+		// the cached view of a collection (Model L); the model gets it as input (`cstatein`)
+		n, _ := unhx(t[2])
+		_, c, e := w.coll(atoi(t[1]), n)
+		if e != "" {
+			return e
+		}
+		w.rewrite = fmt.Sprintf("cstatein %s %s %s", t[1], t[2], gkvlite.VerifCacheState(c))
+		return "ok"
+	case "cget", "cmin", "cmax", "cevict":
+		// GetItem / MinItem / MaxItem / EvictSomeItems with everything Model L predicts observed:
+		// the answer (a value is shown whenever the returned item carries one), the file reads in
+		// order, and the cached view afterwards
+		n, _ := unhx(t[2])
+		st, c, e := w.coll(atoi(t[1]), n)
+		if e != "" {
+			return e
+		}
+		fid, ok := w.sfile[atoi(t[1])]
+		mf := w.files[fid]
+		if !ok || mf == nil {
+			return "err-nofile"
+		}
+		mark := len(mf.Log)
+		var it *gkvlite.Item
+		var err error
+		switch t[0] {
+		case "cget":
+			k, _ := unhx(t[3])
+			it, err = c.GetItem(k, t[4] == "1")
+		case "cmin":
+			it, err = c.MinItem(t[3] == "1")
+		case "cmax":
+			it, err = c.MaxItem(t[3] == "1")
+		case "cevict":
+			seed := 7000003 + w.cevicts
+			w.cevicts++
+			rand.Seed(seed)
+			bits := make([]byte, 128)
+			for i := range bits {
+				bits[i] = '0' + byte(rand.Int()&1)
+			}
+			rand.Seed(seed)
+			c.EvictSomeItems()
+			w.rewrite = fmt.Sprintf("cevict %s %s %s", t[1], t[2], bits)
+		}
+		if err != nil {
+			return errClass(err)
+		}
+		found := "nil"
+		if it != nil {
+			v := "-"
+			if it.Val != nil {
+				v = "h" + hex.EncodeToString(it.Val)
+			}
+			found = hex.EncodeToString(it.Key) + ":" + strconv.Itoa(int(it.Priority)) + ":" + v
+			if w.rc != nil {
+				w.rc.handed(it)
+			}
+			st.ItemDecRef(c, it)
+		}
+		var rds []string
+		for _, e := range mf.Log[mark:] {
+			switch e.Kind {
+			case memfile.Read:
+				rds = append(rds, fmt.Sprintf("r%d+%d", e.Off, e.Len))
+			case memfile.Stat:
+				rds = append(rds, "s")
+			case memfile.Write:
+				rds = append(rds, fmt.Sprintf("w%d+%d", e.Off, e.Len))
+			case memfile.Trunc:
+				rds = append(rds, fmt.Sprintf("t%d", e.Off))
+			}
+		}
+		return found + " | " + strings.Join(rds, ",") + " | " + gkvlite.VerifCacheState(c)
 	case "rmark": // forget the reads made so far
 		if mf := w.files[atoi(t[1])]; mf != nil {
 			w.rmark[atoi(t[1])] = len(mf.Log)
